@@ -79,9 +79,16 @@ def gen(rng):
             burst = rng.choice((1, 1, 2, 3))
             ops.append(req)
             for k in range(burst - 1):
-                if rng.random() < 0.5:
+                r3 = rng.random()
+                if r3 < 0.3:
                     ops.append({"op": "beacon", "st": rng.choice([x for x in range(n) if x != snd])})
                     ops.append({"op": "deliver_one"})
+                elif r3 < 0.7:
+                    # an unrelated frame (often from the destination itself) overtakes the location-service exchange:
+                    # frames of different senders have no mutual order on the air
+                    who = d if rng.random() < 0.7 else rng.choice([x for x in range(n) if x != snd])
+                    ops.append({"op": rng.choice(("beacon", "beacon", "shb_from")), "st": who})
+                    ops.append({"op": "deliver_from", "from": who, "to": snd})
                 r2 = dict(req)
                 r2["plen"] = rng.choice((0, 3, 50))
                 r2["dport"] = rng.choice(PORTPOOL)
@@ -119,6 +126,17 @@ def run_case(c, res):
                     w.settle()
                 elif op["op"] == "deliver_one":
                     w.ether.step()
+                elif op["op"] == "shb_from":
+                    S[op["st"]].btp.btp_data_request(btp_request("shb", b"unrelated", btp="B", dport=2001))
+                elif op["op"] == "deliver_from":
+                    q = w.ether.queue
+                    for k, item in enumerate(q):
+                        if item[1] == f"S{op['from']}" and item[2] == f"S{op['to']}":
+                            del q[k]
+                            q.appendleft(item)
+                            w.ether.step()
+                            res.count("frames_overtaking_ls_exchange")
+                            break
                 elif op["op"] == "adv":
                     w.clock.advance(op["dt"])
                     w.settle()
@@ -178,7 +196,7 @@ def run_case(c, res):
                 got.setdefault(key, []).append((i, port, ind, t))
         known_tags = {r["tag"] for r in reqs}
         for key in got:
-            if key not in known_tags:
+            if key not in known_tags and not key.startswith(b"unrelate"):      # the harness's own unrelated single-hop broadcasts
                 res.violation("C01:delivery-of-unknown-payload", f"handler got payload with tag {key!r}", c)
         order_seen = {}
         for r in reqs:
